@@ -450,7 +450,12 @@ class SparselyBin(Factory, Container):
                     else:
                         # in practice passing on sliced arrays is faster for multi-dim histograms
                         np.equal(q, index, selection)
-                        self.bins[index]._numpy(data[selection], subweights[selection], [np.sum(selection)])
+                        if isinstance(data, dict):
+                            # (a dict of arrays, the other form of input fill.numpy accepts, is sliced column by column)
+                            sliced = {k: v[selection] for k, v in data.items()}
+                        else:
+                            sliced = data[selection]
+                        self.bins[index]._numpy(sliced, subweights[selection], [np.sum(selection)])
 
         # no possibility of exception from here on out (for rollback)
         self.entries += float(newentries)
